@@ -26,6 +26,7 @@ from .interp import (
     SObj,
     SVar,
 )
+from . import magdomain as MD
 from .term import Mat, Rat, Vec
 from .units import DIMENSIONLESS, NO_UNIT, Unit, UnitError, parse_unit
 
@@ -119,6 +120,14 @@ def py_dtype(v) -> str:
 
 import operator as _operator  # noqa: E402
 
+# numpy.finfo of the two IEEE formats (python floats: the interpreter lifts them like literals)
+_FINFO = {
+    'float32': {'eps': 2.0 ** -23, 'max': 3.4028234663852886e38, 'min': -3.4028234663852886e38, 'tiny': 1.1754943508222875e-38,
+                'smallest_normal': 1.1754943508222875e-38, 'smallest_subnormal': 1.401298464324817e-45, 'bits': 32, 'resolution': 1e-6},
+    'float64': {'eps': 2.0 ** -52, 'max': 1.7976931348623157e308, 'min': -1.7976931348623157e308, 'tiny': 2.2250738585072014e-308,
+                'smallest_normal': 2.2250738585072014e-308, 'smallest_subnormal': 5e-324, 'bits': 64, 'resolution': 1e-15},
+}
+
 
 class _PyCallable:
     """A callable built by the model (operator.methodcaller and the like); called through the vp_call protocol."""
@@ -149,6 +158,13 @@ class Model:
         return v
 
     narrow_log = None
+    mag_log = None  # [(mag, where, text)] of single-precision values with a known magnitude interval
+
+    def set_mag(self, interp, r: SVar, mag):
+        r.mag = mag
+        if self.mag_log is not None and mag is not None and r.dtype == 'float32':
+            self.mag_log.append((mag, interp.where(interp.cur_node) if interp.cur_node is not None else '?', r.term, r.unit))
+        return r
 
     _seq = 0
 
@@ -170,10 +186,12 @@ class Model:
             r = SVar(Rat.const(v) if not isinstance(v, bool) else Rat.const(int(v)),
                      DIMENSIONLESS, py_dtype(v))
             r.kind = 'pyfloat'
+            r.mag = MD.const_mag(v)
             return r
         if isinstance(v, F):
             r = SVar(Rat.const(v), DIMENSIONLESS, 'float64')
             r.kind = 'pyfloat'
+            r.mag = MD.const_mag(v)
             return r
         if isinstance(v, Opaque):
             return SVar(None, None, None, why=v.why)
@@ -267,6 +285,9 @@ class Model:
             raise AnalysisError(f'unknown scipp constant {name} at {interp.where(node)}')
         v = self.new(interp, Rat.sym(name, positive=True), self.CONSTS[name], 'float64')
         v.kind = 'constant'
+        from .magnitude import CONSTANTS
+        if name in CONSTANTS:
+            v.mag = MD.const_mag(CONSTANTS[name])  # scipp.constants are expressed in SI units
         return v
 
     # ------------------------------------------------------------------
@@ -366,15 +387,19 @@ class Model:
             interp.mutate(a, node, f'in-place {op}')
             old = SVar(None, None, None)
             old.hist = a.hist
+            amag = a.mag
             a.term, a.unit, a.dtype, a.why = term, unit, dtype, why
             a.taint = taint
+            self.set_mag(interp, a, amag if unit_only is not None else MD.arith(op, amag, b.mag, dtype, tb.as_const() if op == 'pow' and isinstance(tb, Rat) else None))
             return self.hist(a, op, old, b) if unit_only is None else a
         r = self.new(interp, term, unit, dtype, taint=taint, why=why)
         if a.kind == 'pyfloat' and b.kind == 'pyfloat':
             r.kind = 'pyfloat'
         if unit_only is not None:
             r.hist = (a if unit_only == 1 else b).hist
+            r.mag = (a if unit_only == 1 else b).mag  # a number times a unit: the number is unchanged
             return r
+        self.set_mag(interp, r, MD.arith(op, a.mag, b.mag, dtype, tb.as_const() if op == 'pow' and isinstance(tb, Rat) else None))
         return self.hist(r, op, a, b)
 
     @staticmethod
@@ -413,6 +438,7 @@ class Model:
             t = -v.term if v.term is not None else None
             r = self.new(interp, t, v.unit, v.dtype, v.taint, v.why)
             r.hist = v.hist
+            r.mag = v.mag
             return r
         if op == 'UAdd':
             return self.new(interp, v.term, v.unit, v.dtype, v.taint, v.why)
@@ -611,6 +637,12 @@ class Model:
                         raise RaiseSignal('DTypeError', node, interp.where(node) + ' [vector conversion]')
         r = self.new(interp, v.term, new_unit, new_dtype, v.taint, v.why)
         r.hist = v.hist
+        if v.mag is not None:
+            if new_unit is v.unit or (new_unit is not None and v.unit is not None and new_unit == v.unit):
+                self.set_mag(interp, r, v.mag)
+            else:
+                so, sn = MD.unit_scale_log10(v.unit), MD.unit_scale_log10(new_unit)
+                self.set_mag(interp, r, MD.shift(v.mag, so - sn) if so is not None and sn is not None else None)
         if v.kind == 'raw':
             r.kind = 'raw'
             r.members.update(v.members)
@@ -717,6 +749,11 @@ class Model:
             if name in REDUCTIONS:
                 a = _bind(['x', 'dim'], args, kwargs, {'dim': None})
                 return self._reduce(interp, name, self.lift(interp, a['x']), node)
+        if path == 'numpy.finfo' and len(args) == 1 and not kwargs:
+            name_ = norm_dtype(args[0]) if not isinstance(args[0], Opaque | SVar) else None
+            if name_ in _FINFO:
+                import types
+                return types.SimpleNamespace(**_FINFO[name_])
         if mod in ('math', 'numpy'):
             return self._math(interp, mod, name, args, kwargs, node)
         if path == 'uuid.uuid4':
@@ -844,6 +881,7 @@ class Model:
             r = self.new(interp, t if unit is not None else None, unit, dtype or py_dtype(val), why='unit unknown')
             r.members['variance'] = var
             r.members['value'] = val
+            r.mag = MD.const_mag(val)
             return r
         if isinstance(val, str):
             return self.new(interp, None, unit, 'string', why='string scalar')
@@ -984,10 +1022,18 @@ class Model:
                 raise RaiseSignal('DTypeError', node, interp.where(node) + ' [out= dtype mismatch]')
             interp.mutate(out, node, f'out= of {name}')
             out.term, out.unit, out.why, out.taint = t, unit, why, taint
+            out.mag = None
             if dtype is not None:
                 out.dtype = dtype
             return self.hist(out, name, *xs)
-        return self.hist(self.new(interp, t, unit, dtype, taint, why), name, *xs)
+        r = self.new(interp, t, unit, dtype, taint, why)
+        if name == 'sqrt' and xs[0].mag is not None:
+            self.set_mag(interp, r, MD.scale(xs[0].mag, 0.5))
+        elif name == 'abs':
+            self.set_mag(interp, r, xs[0].mag)
+        elif name == 'reciprocal' and xs[0].mag is not None:
+            self.set_mag(interp, r, MD.scale(xs[0].mag, -1.0))
+        return self.hist(r, name, *xs)
 
     def sc_norm(self, interp, args, kwargs, node):
         x = self.lift(interp, args[0] if args else kwargs['x'])
@@ -1045,6 +1091,7 @@ class Model:
             t = T.fn_where(c.term, x.term, y.term)
         r = self.new(interp, t, x.unit, x.dtype or y.dtype, c.taint or x.taint or y.taint, c.why or x.why or y.why)
         r.hist = x.hist | y.hist | c.hist
+        r.mag = MD.union(x.mag, y.mag)  # a selection computes nothing
         return r
 
     def sc_concat(self, interp, args, kwargs, node):
